@@ -381,7 +381,8 @@ def b_zip(I, args, kw):
 
 def b_sorted(I, args, kw):
     from .symcoll import SortedView
-    if isinstance(args[0], SymSeq):
+    from .symcoll import ConcatSeq
+    if isinstance(args[0], (SymSeq, ConcatSeq)):
         I.used_models.add("sorted(): permutation of its input ordered by key")
         return SortedView(args[0], kw.get("key"))
     xs = list(I.iterate(args[0]))
@@ -950,6 +951,9 @@ def _sv_method(I, v: SV, name, args, kw):
             raise Unsupported("str.encode on symbolic string")
         if name == "format":
             return I.fresh("str", "format")
+        if name in ("replace", "lower", "upper", "lstrip", "rstrip", "title", "casefold"):
+            I.used_models.add(f"str.{name} on a symbolic string: over-approximated by an arbitrary string")
+            return I.fresh("str", name)
     if v.k == "bytes":
         if name == "decode":
             raise Unsupported("bytes.decode on symbolic bytes")
